@@ -29,7 +29,7 @@ ASSUMPTIONS = [
     'them); duplicates are detected by decoding twice (assign / accumulate)',
 ]
 ANCHORS = ['Table.to_hdf5', 'general_formatter', 'vlen_list_of_str_formatter', '_convert']
-REQUIRED = ['format_fs_writes', 'spec_decodes', 'empty_axis_tables', 'all_zero_tables',
+REQUIRED = ['ragged_metadata_cases', 'format_fs_writes', 'spec_decodes', 'empty_axis_tables', 'all_zero_tables',
             'cli_convert_files', 'layout_csc_seen', 'layout_unsorted_seen',
             'inplace_zeroed_tables']
 
@@ -41,6 +41,8 @@ def plan(tier):
 
 
 def run_case(ctx, index):
+    if index % 29 == 11:
+        return _hdf5.ragged_case(ctx, index, ctx.rng(index), 'C04')
     g = _hdf5.gen_case(ctx, index, empty_axis_ok=True)
     if g is None:
         return
